@@ -355,6 +355,17 @@ func (s *State) callResolved(site ssa.Instruction, cc *ssa.CallCommon, fnv Val, 
 	if callee.Synthetic != "" && strings.HasPrefix(callee.Synthetic, "instance of") && callee.Origin() != nil {
 		full = callee.Origin().String()
 	}
+	s.callSiteAsserts(site, key, callee, args)
+	if full == "(*golang.org/x/sync/singleflight.Group).Do" && len(args) == 3 && args[2].Clo != nil {
+		// singleflight.Do(key, fn): fn's result is handed back (a concurrent duplicate gets the same value;
+		// coalescing is internal to the library)
+		c.assumed["library contract assumed: singleflight.Group.Do(key, fn) returns the result of one execution of fn"] = true
+		s.inline(args[2].Clo.Fn, nil, args[2].Clo.Bindings, func(st *State, res []Val) {
+			shared := st.freshVal(boolT, "shared")
+			k(st, append(res, shared))
+		})
+		return
+	}
 	if lm, ok := eng.lib[full]; ok {
 		k(s, lm(s, site, args))
 		return
@@ -367,7 +378,6 @@ func (s *State) callResolved(site ssa.Instruction, cc *ssa.CallCommon, fnv Val, 
 	if callee.Signature.Recv() != nil && len(args) > 0 && kindOf(args[0].T) == kPtr && eng.inRepo(callee) {
 		s.nilCheck(site, args[0], "nil receiver for "+callee.Name())
 	}
-	s.callSiteAsserts(site, key, callee, args)
 	if con, ok := eng.contracts.Funcs[key]; ok && !con.Inline {
 		s.applyContract(site, key, con, callee, args, sig, k)
 		return
@@ -1287,6 +1297,7 @@ func (s *State) callSiteAssertsNamed(site ssa.Instruction, key string, names []s
 		}
 		v := x.eval(ca.Clause.Expr)
 		c.specErrors(x, ca.Clause.Where)
-		s.oblige(fmt.Sprintf("callsite:%s", key), site, c.ordinal(site, "callsite")*10+i, v.S, "at every call of "+key+": "+ca.Clause.Src, true)
+		// named by clause (all call sites of the callee aggregate under one name)
+		s.oblige(fmt.Sprintf("callsite:%s", key), site, i+1, v.S, "at every call of "+key+": "+ca.Clause.Src, true)
 	}
 }
